@@ -115,12 +115,14 @@ Print Assumptions C09_ranges_all_in.
 (* Server (Block1): for any sequence of arrivals that are slices of one body (any order,
    duplicates, gaps), for any content of uninitialised storage: every delivery is the body,
    no block is rejected, and the number of deliveries is bounded by the number of times any
-   single block arrived. *)
+   single block arrived.  The Size1 option may be absent or exact (the model describes
+   coap_handle_request_put_block as repaired by /repo commit 06a7cfe). *)
 Theorem C09_reassembly_server : forall body szx (junk : Z -> Z),
   0 <= szx -> 0 < len body ->
-  forall l : list blk_arr,
+  forall (size : option Z) (l : list blk_arr),
+  size = None \/ size = Some (len body) ->
   Forall (fun a => exists k, 0 <= k < blk_nblocks body szx /\
-                             a = blk_arr_of body szx (Some (len body)) k) l ->
+                             a = blk_arr_of body szx size k) l ->
   Forall (fun o => match o with BoDeliver d => d = body | BoReject => False | _ => True end)
          (blk_run (blk_srv_step junk) None l) /\
   forall j, 0 <= j < blk_nblocks body szx ->
@@ -144,9 +146,10 @@ Print Assumptions C09_reassembly_client.
 
 (* every block once, in order: continuations, then exactly one delivery of the body *)
 Theorem C09_inorder_server : forall body szx (junk : Z -> Z),
-  0 <= szx -> 0 < len body -> 2 <= blk_nblocks body szx ->
+  0 <= szx -> 0 < len body -> forall size, size = None \/ size = Some (len body) ->
+  2 <= blk_nblocks body szx ->
   blk_run (blk_srv_step junk) None
-    (map (blk_arr_of body szx (Some (len body))) (blk_range (blk_nblocks body szx)))
+    (map (blk_arr_of body szx size) (blk_range (blk_nblocks body szx)))
   = repeat BoContinue (Z.to_nat (blk_nblocks body szx - 1)) ++ [BoDeliver body].
 Proof. exact blk_srv_inorder. Qed.
 Print Assumptions C09_inorder_server.
